@@ -199,6 +199,10 @@ type verifRollOpts struct {
 	// is still with an old revision and needs a real change).
 	progress bool
 	status   map[string]interface{}
+	// twoVersions: the child kind may be configured at a second API version too
+	// (claimChildren creates a group per configured version; the children live in
+	// one of them, the other group is empty and may come first or second)
+	twoVersions bool
 }
 
 type verifRoll struct {
@@ -361,7 +365,21 @@ func verifRollBuild(o verifRollOpts) *verifRoll {
 
 	// observed children, as claimChildren builds the map
 	s.obs = make(commonv2.UniformObjectMap)
+	otherVersion := s.k.res.GroupVersionKind()
+	otherVersion.Version = otherVersion.Version + "beta1"
+	extra := 0
+	if o.twoVersions {
+		extra = rt.Choice("kind-configured-at-a-second-version", 3) // 0 no, 1 its (empty) group first, 2 second
+	}
+	if extra == 1 {
+		rt.Cover("second-version-group-first")
+		s.obs.InitGroup(otherVersion)
+	}
 	s.obs.InitGroup(s.k.res.GroupVersionKind())
+	if extra == 2 {
+		rt.Cover("second-version-group-second")
+		s.obs.InitGroup(otherVersion)
+	}
 	s.obs.InitGroup(env.PodRes.GroupVersionKind())
 	for _, c := range s.c {
 		if c.observed {
